@@ -73,6 +73,7 @@ THEOREMS = [
     'caller_gets_convention',
     'retry_lands_after_loss',
     'disconnect_callback_call_is_failed',
+    'disconnect_callback_calls_get_loss_reason',
     'raising_disconnect_callback_aborts_loss',
     'reentrant_reduces',
     'reentrant_exactly_once',
@@ -98,6 +99,11 @@ ASSUMPTIONS = [
     'the connection is ready (Hello answered) when calls are issued; connectionLost before that is C09',
     'a caller\'s errback may issue new calls synchronously (stream reentrant, theorem reentrant_reduces); other '
     're-entrant use of the connection from callbacks (disconnecting, feeding data) is not generated',
+    'reading of "outstanding" at a connection loss: a call issued by a notifyOnDisconnect callback while connectionLost '
+    'is running (before anything has been failed) is outstanding and owed the loss reason by the time connectionLost '
+    'returns (oracle keys call-issued-during-loss-not-failed / -completed-late, bookkeeping-left-after-loss, '
+    'timer-left-after-loss; theorem disconnect_callback_calls_get_loss_reason); a call issued by the ERRBACK of a call '
+    'the loss has just failed is issued after the loss: only its own deadline is owed (or an immediate loss failure)',
     'Twisted calls connectionLost at most once and delivers no data afterwards',
     'argument domains: timeout is None, 0 / 0.0, or a positive finite int / float / True; negative, NaN, infinite or '
     'non-numeric timeouts are not modelled (Clock and the real reactor differ on them; a str makes callRemote return a '
@@ -110,7 +116,9 @@ RULE = ('scenarios: all interleavings of per-call event lists (issue, then retur
         'duplicates included) for N <= 3 calls (quick) / N <= 4 (thorough), with an unsolicited reply or a connection '
         'loss inserted at every position; random schedules for N <= 12; errbacks that retry (1-2 new calls, with / '
         'without deadline) run by an error reply, a deadline, a signature mismatch or the loss, then every short order '
-        'of deadline / reply / loss on the retries, plus random ones; reply contents, return signatures and timeout '
+        'of deadline / reply / loss on the retries, plus random ones; 1-3 disconnect callbacks that raise or issue '
+        'calls (deadline / none / timeout=0) with 0-2 calls outstanding (plain or with retrying errbacks) at the loss; '
+        'reply contents, return signatures and timeout '
         'kinds rotate over fixed variant tables.  distinct = distinct canonical JSON of the scenario; non-trivial = at '
         'least one call and one event after it')
 
@@ -686,14 +694,8 @@ class Impl:
 
     last_body = None
 
-    def snapshot(self, new_rec, faults, bodies):
-        fs = []
-        for i, (did, kind, val) in enumerate(new_rec):
-            self.last_body = bodies.get(did)
-            fs.append('%d=%s' % (did, self.outcome_str(did, kind, val)))
-        ps = []
-        for serial, (d, timeout) in self.conn._pendingCalls.items():
-            ps.append('%d:%s:%s' % (serial, self.dids.get(id(d), '?'), 't' if timeout else '-'))
+    def timer_owners(self):
+        """(did, serial) of the call each delayed call of this connection belongs to ((-1, -1): nobody's)."""
         ts = []
         unmatched = []
         for dc in self.my_delayed():
@@ -719,7 +721,17 @@ class Impl:
             else:
                 taken.add(did)
                 ts.append((did, self.calls[did]['serial']))
-        ts.sort()
+        return ts
+
+    def snapshot(self, new_rec, faults, bodies):
+        fs = []
+        for i, (did, kind, val) in enumerate(new_rec):
+            self.last_body = bodies.get(did)
+            fs.append('%d=%s' % (did, self.outcome_str(did, kind, val)))
+        ps = []
+        for serial, (d, timeout) in self.conn._pendingCalls.items():
+            ps.append('%d:%s:%s' % (serial, self.dids.get(id(d), '?'), 't' if timeout else '-'))
+        ts = sorted(self.timer_owners())
         return 'F[%s] P[%s] T[%s] X[%s]' % (';'.join(fs), ','.join(ps),
                                             ','.join('%d:%d' % t for t in ts), ','.join(faults))
 
@@ -778,7 +790,8 @@ class Monitor:
         self.state = {}         # did -> 'open' | 'done'
         self.fired = {}         # did -> number of firings
         self.lost = False
-        self.postloss = set()   # calls issued while or after the connection was lost
+        self.postloss = set()   # calls issued after the connection was lost / by errbacks while it was being lost
+        self.missed = set()     # calls issued by a disconnect callback that the loss did not fail
         self.problems = []      # (key, text)
 
     def bad(self, key, text):
@@ -859,6 +872,7 @@ class Monitor:
         op = st.op
         expected = {}       # did -> checker(kind, val)
         optional = {}       # did -> checker: may fire in this step, need not
+        during = set()      # calls issued by disconnect callbacks during this connectionLost
         kind = op[0]
         if kind == 'hello':
             self.state[0] = 'skip'
@@ -926,13 +940,32 @@ class Monitor:
                         if not (k == 'eb' and (v is reason or v.value is reason.value)):
                             self.bad('loss-reason', 'call %d: connection lost, delivered %s' % (did, _short(k, v)))
                     expected[did] = chk
+            if not self.lost:
+                # connectionLost tells the disconnect callbacks (notifyOnDisconnect) and fails what is outstanding.
+                # A call one of those callbacks issues - a last ReleaseName, a goodbye - is issued while the loss
+                # is being handled, before anything has been failed: it is outstanding when the outstanding calls
+                # are failed and is owed the loss reason like them, by the time connectionLost returns - not a
+                # TimeOut later, not nothing.  (A connection that refuses the call at once with a
+                # connection-closed failure does as well.)  Calls issued by the ERRBACKS of the calls the loss
+                # fails are a different matter: see `late` below.
+                for did in st.created:
+                    c = im.calls[did]
+                    if c['ref'] and c['ref'][0] == 'd' and c['er'] and not c.get('bad'):
+                        during.add(did)
+
+                        def chk(k, v, did=did):
+                            if not self.is_loss_reason(k, v):
+                                self.bad('loss-reason', 'call %d, issued by a disconnect callback while the loss was '
+                                         'handled: delivered %s' % (did, _short(k, v)))
+                        expected[did] = chk
             self.lost = True
 
         # a raising disconnect callback that connectionLost lets through ends connectionLost before the pending
         # calls are failed: one finding (F-1), not a shower of generic ones
         aborted = kind == 'lost' and 'callbackRaised' in st.faults
-        # calls issued while / after the connection is lost: failing them at once with the loss reason is as
-        # good as leaving them to their deadline
+        # calls issued after the connection is lost, or by the errbacks of the calls the loss fails: failing them at
+        # once with the loss reason is as good as leaving them to their deadline (the disconnect callbacks' calls
+        # are in `expected`: they are owed the loss reason)
         late = set(st.created) if self.lost else set()
         # (1) exactly once / attribution: the Deferreds that fired in this step are exactly the expected ones
         seen = {}
@@ -941,7 +974,12 @@ class Monitor:
             self.fired[did] = self.fired.get(did, 0) + 1
             if self.fired[did] > 1:
                 self.bad('double-completion', 'call %d completed %d times' % (did, self.fired[did]))
-            if did in optional and did not in expected:
+            if self.state.get(did) == 'missed':
+                self.bad('call-issued-during-loss-completed-late', 'call %d, issued by a disconnect callback while '
+                         'the loss was handled, was not failed by the loss; it completed only on %r, with %s'
+                         % (did, op, _short(k, v)))
+                self.state[did] = 'done'
+            elif did in optional and did not in expected:
                 optional[did](k, v)
                 self.state[did] = 'done'
             elif did not in expected and (did in late or did in self.postloss) and self.state.get(did) != 'done' \
@@ -964,6 +1002,16 @@ class Monitor:
                          % (missing, len(im.conn._pendingCalls), len(im.my_delayed())))
         else:
             for did in expected:
+                if did not in seen and did in during:
+                    c = im.calls[did]
+                    self.bad('call-issued-during-loss-not-failed', 'call %d (serial %s, %s), issued by disconnect '
+                             'callback %d while connectionLost was running, had not completed when connectionLost '
+                             'returned: it was not failed with the loss reason'
+                             % (did, c['serial'], {'P': 'with a deadline', 'Z': 'timeout=0', 'N': 'no deadline'}[c['tmo']],
+                                c['ref'][1]))
+                    self.missed.add(did)
+                    self.state[did] = 'missed'
+                    continue
                 if did not in seen:
                     self.bad('completion-missing', 'call %d did not complete on %r' % (did, op))
                 self.state[did] = 'done'
@@ -974,7 +1022,7 @@ class Monitor:
             self.bad(key, '%r raised %s out of the connection' % (op, f))
         # calls issued by errbacks that ran during this operation (retries) are issued calls like any other
         for did in st.created:
-            if self.lost:
+            if self.lost and self.state.get(did) not in ('done', 'missed'):
                 self.postloss.add(did)
             if did not in self.state:
                 self.state[did] = 'open'
@@ -999,7 +1047,7 @@ class Monitor:
                     self.bad('residue-timer', 'call %d completed but its timeout is still scheduled' % did)
         # independent of how a timer refers to its call: there are never more timers than calls that still
         # wait for a reply under a deadline
-        waiting = sum(1 for did, s in self.state.items() if s == 'open' and im.calls[did]['er']
+        waiting = sum(1 for did, s in self.state.items() if s in ('open', 'missed') and im.calls[did]['er']
                       and not im.calls[did].get('bad') and im.calls[did]['tmo'] in ('P', 'Z'))
         for o in im.others:
             if o['fired']:
@@ -1014,15 +1062,28 @@ class Monitor:
             self.bad('residue-timer', '%d delayed call(s) scheduled, only %d call(s) still wait under a deadline'
                      % (len(delayed), waiting))
         if kind == 'lost' and not aborted:
-            # what the errbacks issued while the connection was being torn down is new bookkeeping, not residue
-            mine = {im.calls[d]['serial'] for d in st.created}
-            left = sorted(k for k in pend if k not in mine)
+            # what the ERRBACKS issued while the connection was being torn down is new bookkeeping, not residue;
+            # what the disconnect callbacks issued was outstanding when the table was failed: nothing of it stays
+            retries = [d for d in st.created if d not in during]
+            mine = {im.calls[d]['serial'] for d in retries}
+            theirs = {im.calls[d]['serial']: d for d in during if im.calls[d]['serial'] is not None}
+            left = sorted(k for k in pend if k not in mine and k not in theirs)
             if left:
                 self.bad('residue-after-loss', '_pendingCalls not empty after connectionLost: %r' % left)
-            fresh = sum(1 for d in st.created if im.calls[d]['tmo'] in ('P', 'Z'))
-            if len(delayed) > fresh:
+            left = sorted(k for k in pend if k not in mine and k in theirs)
+            if left:
+                self.bad('bookkeeping-left-after-loss', '_pendingCalls still holds serial(s) %r after connectionLost: '
+                         'call(s) %r issued by disconnect callbacks while the loss was handled'
+                         % (left, [theirs[k] for k in left]))
+            owners = [t[0] for t in im.timer_owners()]
+            held = sorted(d for d in during if d in owners)
+            if held:
+                self.bad('timer-left-after-loss', 'the timeout(s) of call(s) %r, issued by disconnect callbacks while '
+                         'the loss was handled, are still scheduled after connectionLost' % held)
+            fresh = sum(1 for d in retries if im.calls[d]['tmo'] in ('P', 'Z'))
+            if len(delayed) - len(held) > fresh:
                 self.bad('residue-timer-after-loss', '%d delayed call(s) left after connectionLost (%d issued by '
-                         'errbacks during it)' % (len(delayed), fresh))
+                         'errbacks during it)' % (len(delayed) - len(held), fresh))
 
 
 def tok_deep(v):
@@ -1306,7 +1367,8 @@ def gen_reentrant_random(rng):
         if r < 0.33 and not lost:
             q = rng.random()
             if q < 0.4:
-                ops.append(['ondisc', [[rng.choice('PN'), 'K'] for _ in range(rng.randint(1, 2))]])
+                ops.append(['ondisc', [[rng.choice('PPNNZ'), rng.choice(['K', 'K', 'K', 's'])]
+                                       for _ in range(rng.randint(1, 2))]])
                 dcs.append(ops[-1][1])
                 continue
             if q < 0.6:
@@ -1345,31 +1407,43 @@ def gen_reentrant_random(rng):
 
 
 DC_ACTIONS = [['raise'], [[['P', 'K']]], [[['N', 'K']]], [[['P', 'K']], 'raise'], ['raise', [['P', 'K']]],
-              [[['N', 'K'], ['P', 'K']], [['P', 'K']]], ['raise', 'raise']]
+              [[['N', 'K'], ['P', 'K']], [['P', 'K']]], ['raise', 'raise'],
+              [[['Z', 'K']]], [[['P', 's']], [['N', 'K']], [['N', 'i'], ['P', 'K']]], [[['N', 'K']], [['P', '']]]]
 
 
 def gen_disconnect_callbacks():
-    """notifyOnDisconnect callbacks that raise and / or issue calls, 0-2 calls outstanding when the connection is
-    lost; afterwards the deadlines of everything that had one, and a late reply."""
+    """notifyOnDisconnect callbacks (1-3) that raise and / or issue calls (with a deadline, without, timeout=0,
+    declared return signatures), 0-2 calls outstanding when the connection is lost - plain ones, or ones whose
+    errback retries when the loss fails them (so that one connectionLost sees calls issued by disconnect callbacks
+    AND calls issued by errbacks); afterwards the deadlines of everything that had one, and a late reply."""
     for nbase in (0, 1, 2):
         for base_tmo in ('P', 'N'):
-            for acts in DC_ACTIONS:
-                for early in (False, True):
-                    ops = [['ondisc', a] for a in acts] if early else []
-                    ops += [['call', 1, base_tmo, 'K'] for _ in range(nbase)]
-                    if not early:
-                        ops += [['ondisc', a] for a in acts]
-                    ops.append(['lost', 0])
-                    for i, a in enumerate(acts):
-                        if a != 'raise':
-                            for j, (tmo, rs) in enumerate(a):
+            for react in (None, [['P', 'K']], [['N', 'K'], ['P', 'K']]):
+                if react and not nbase:
+                    continue
+                for acts in DC_ACTIONS:
+                    if react and 'raise' in acts:
+                        continue
+                    for early in (False, True):
+                        ops = [['ondisc', a] for a in acts] if early else []
+                        ops += [['call', 1, base_tmo, 'K'] + ([react] if react else []) for _ in range(nbase)]
+                        if not early:
+                            ops += [['ondisc', a] for a in acts]
+                        ops.append(['lost', 0])
+                        for i, a in enumerate(acts):
+                            if a != 'raise':
+                                for j, (tmo, rs) in enumerate(a):
+                                    if tmo == 'P':
+                                        ops.append(['expire', ['d', i, j]])
+                        for k in range(nbase if react else 0):
+                            for j, (tmo, rs) in enumerate(react):
                                 if tmo == 'P':
-                                    ops.append(['expire', ['d', i, j]])
-                    if nbase and base_tmo == 'P':
-                        ops.append(['expire', 0])
-                    if nbase:
-                        ops.append(['ret', nbase - 1, 2])
-                    yield {'stream': 'disconnect-callbacks', 'ready': True, 'serial0': 1, 'ops': ops}
+                                    ops.append(['expire', ['r', k, j]])
+                        if nbase and base_tmo == 'P':
+                            ops.append(['expire', 0])
+                        if nbase:
+                            ops.append(['ret', nbase - 1, 2])
+                        yield {'stream': 'disconnect-callbacks', 'ready': True, 'serial0': 1, 'ops': ops}
 
 
 def gen_resend():
@@ -1646,6 +1720,15 @@ def stats(ctx, scn, im, steps):
         own = 1 if st.op[0] in ('call', 'callmsg', 'callbad', 'callbig', 'recall', 'hello') else 0
         if len(st.created) > own:
             ctx.stat('call-issued-by-callback-inside:' + st.op[0], len(st.created) - own)
+        if st.op[0] == 'lost':
+            for did in st.created:
+                c = im.calls[did]
+                ctx.stat('call-issued-during-loss:by-%s,tmo=%s' % (
+                    'disconnect-callback' if c['ref'][0] == 'd' else 'errback', c['tmo']))
+            nd = len(set(im.calls[d]['ref'][1] for d in st.created if im.calls[d]['ref'][0] == 'd'))
+            if nd:
+                ctx.stat('loss:disconnect-callbacks-issuing-calls=%d%s' % (
+                    nd, ',errbacks-retrying-too' if any(im.calls[d]['ref'][0] == 'r' for d in st.created) else ''))
         for did, k, v in st.new:
             if k == 'cb':
                 ctx.stat('completion:value')
